@@ -185,8 +185,14 @@ def gen_case(rng, tier, mode):
     strict = int(rng.random() < 0.35)
     g = rng.choice([0, 0, 0, 1, 2, 3])
     maxmem = 0
-    if nsel == 0 and rng.random() < 0.3 and len(doc) > 0:
-        # the VM's open-element stack is not charged in the model: memory limits only without selectors
+    if shape > 0.9 and len(doc) > 0:
+        # memory-limit shapes: the VM's open-element stack is not charged in the model, so memory limits
+        # only without selectors; small limits so that buffering an unfinished tail fails
+        nsel, sels = 0, []
+        handlers = gen_handlers(rng, 0, rng.choice([0, 1, 1, 2]), mode)
+        maxmem = rng.choice([1, 2, 3, 5, 8, rng.randrange(1, len(doc) + 2)])
+        g = rng.choice([0, 2, 2, 3, 3, 1])
+    elif nsel == 0 and rng.random() < 0.3 and len(doc) > 0:
         maxmem = rng.randrange(1, len(doc) + 2)
     return " ".join([
         doc.hex() or "-",
